@@ -807,6 +807,12 @@ func (sp *Specs) parseFile(path string) error {
 			if len(rs) == 1 {
 				d.RetSort = rs[0].Type
 			}
+			if prev, dup := sp.Defines[key]; dup {
+				return errf("duplicate define %s (also %s:%d)", key, prev.File, prev.Line)
+			}
+			if _, dup := sp.SpecFuns[key]; dup {
+				return errf("define %s has the name of a spec function", key)
+			}
 			sp.Defines[key] = d
 			cur, curLoop = nil, nil
 		case "axiom", "cexaxiom":
@@ -822,6 +828,9 @@ func (sp *Specs) parseFile(path string) error {
 			e, err := parseCE(rest[ci+2:])
 			if err != nil {
 				return errf("%v", err)
+			}
+			if prev, dup := sp.Axioms[key]; dup {
+				return errf("duplicate axiom %s (also %s:%d)", key, prev.File, prev.Line)
 			}
 			sp.Axioms[key] = &FuncSpec{Key: key, Kind: "axiom", Params: ps, Body: e, File: base, Line: l.no, Cex: kw == "cexaxiom"}
 			cur, curLoop = nil, nil
@@ -844,6 +853,12 @@ func (sp *Specs) parseFile(path string) error {
 				return errf("%v", err)
 			}
 			sf.Declare = true
+			if _, dup := sp.SpecFuns[sf.Name]; dup {
+				return errf("duplicate spec function %s", sf.Name)
+			}
+			if _, dup := sp.Defines[sf.Name]; dup {
+				return errf("spec function %s has the name of a define", sf.Name)
+			}
 			sp.SpecFuns[sf.Name] = sf
 		default:
 			if cur == nil {
